@@ -25,25 +25,26 @@ func UUID(kind string, n int) string {
 
 // Opts biases world generation.
 type Opts struct {
-	MaxFlows       int      // 1..4
-	MaxNodes       int      // per flow
-	Actions        []string // allowed action types; nil = all valid for the flow type
-	NoWaits        bool
-	QueryGroups    bool     // include query-based groups
-	GroupQueries   []string // pool of group queries (defaults used if nil)
-	Languages      []string // translation languages besides the base "eng"
-	Voice          bool     // allow voice flows
-	Background     bool     // allow messaging_background flows
-	LongTexts      bool     // templates that produce text far beyond the limits
-	Adversarial    bool     // loop-heavy graphs (self loops, A<->B enters, terminal enters)
-	StableContext  bool     // router operands/arguments only over context that actions of the same sprint do not change
-	WebhookRefs    bool     // allow @webhook references after a wait (C02 excludes them)
-	Templates      []string // extra templates for action texts
-	ResultNames    []string
-	NoVariableRefs bool     // no name_match (expression) group/label references
-	WebhookCmds    []string // extra mock webhook commands (e.g. casevariant)
-	SubflowHeavy   bool     // many enter_flow actions (several per node, missing and wrong-type targets)
-	NoRandom       bool     // no random routers (outputs comparable across executions without a pinned random source)
+	MaxFlows         int      // 1..4
+	MaxNodes         int      // per flow
+	Actions          []string // allowed action types; nil = all valid for the flow type
+	NoWaits          bool
+	QueryGroups      bool     // include query-based groups
+	GroupQueries     []string // pool of group queries (defaults used if nil)
+	Languages        []string // translation languages besides the base "eng"
+	Voice            bool     // allow voice flows
+	Background       bool     // allow messaging_background flows
+	LongTexts        bool     // templates that produce text far beyond the limits
+	Adversarial      bool     // loop-heavy graphs (self loops, A<->B enters, terminal enters)
+	StableContext    bool     // router operands/arguments only over context that actions of the same sprint do not change
+	WebhookRefs      bool     // allow @webhook references after a wait (C02 excludes them)
+	Templates        []string // extra templates for action texts
+	ResultNames      []string
+	NoVariableRefs   bool     // no name_match (expression) group/label references
+	WebhookCmds      []string // extra mock webhook commands (e.g. casevariant)
+	SubflowHeavy     bool     // many enter_flow actions (several per node, missing and wrong-type targets)
+	NoRandom         bool     // no random routers (outputs comparable across executions without a pinned random source)
+	TranslateMissing bool     // translations of quick_replies/attachments that the base language lacks, referencing globals/fields
 }
 
 // World is a generated asset document plus the indexes the scenario generator needs.
@@ -569,6 +570,7 @@ func (g *gen) flow(idx int, uuids, names, types []string) {
 	summary := Flow{UUID: uuids[idx], Name: names[idx], Type: flowType}
 	nodes := []M{}
 	localizable := []M{} // {uuid, property, n}
+	missingTranslations := []M{}
 	for i := 0; i < nNodes; i++ {
 		info := Node{UUID: nodeUUIDs[i]}
 		n := M{"uuid": nodeUUIDs[i]}
@@ -583,6 +585,11 @@ func (g *gen) flow(idx int, uuids, names, types []string) {
 				localizable = append(localizable, M{"uuid": a["uuid"], "property": "text", "n": 1})
 				if qr, ok := a["quick_replies"].([]string); ok {
 					localizable = append(localizable, M{"uuid": a["uuid"], "property": "quick_replies", "n": len(qr)})
+				} else if g.o.TranslateMissing && a["type"] == "send_msg" && rapid.IntRange(0, 2).Draw(g.t, "trmissingqr") == 0 {
+					missingTranslations = append(missingTranslations, M{"uuid": a["uuid"], "property": "quick_replies", "vals": []string{"@globals.org_name", "ok @fields.nick"}})
+				}
+				if _, ok := a["attachments"]; !ok && g.o.TranslateMissing && a["type"] == "send_msg" && rapid.IntRange(0, 2).Draw(g.t, "trmissingatt") == 0 {
+					missingTranslations = append(missingTranslations, M{"uuid": a["uuid"], "property": "attachments", "vals": []string{"image/jpeg:http://mock/@(url_encode(fields.gender))/@globals.limit.jpg"}})
 				}
 			case "set_run_result":
 				if _, ok := a["category"]; ok {
@@ -673,6 +680,14 @@ func (g *gen) flow(idx int, uuids, names, types []string) {
 			}
 			item[l["property"].(string)] = vals
 			items[l["uuid"].(string)] = item
+		}
+		for _, mt := range missingTranslations {
+			item, _ := items[mt["uuid"].(string)].(M)
+			if item == nil {
+				item = M{}
+			}
+			item[mt["property"].(string)] = mt["vals"]
+			items[mt["uuid"].(string)] = item
 		}
 		loc[lang] = items
 	}
